@@ -16,6 +16,7 @@ macro_rules! th {
         #[kani::stub(std::fs::File::metadata, crate::env::file_metadata_stub)]
         #[kani::stub(std::fs::Metadata::len, crate::env::metadata_len_stub)]
         #[kani::stub(std::io::copy, crate::env::io_copy_stub)]
+        #[kani::stub(std::fs::OpenOptions::truncate, crate::env::truncate_stub)]
         fn $name() $body
     };
 }
